@@ -11,9 +11,12 @@ specification and are not judged.
 import multiprocessing as mp
 
 import common
+import irmachine
 import nslast as A
 import nslgen
 import semrun
+
+IRM_PROGRAMS = {"quick": 100, "thorough": 1200}     # generated programs whose VM runs are also validated instruction by instruction
 
 FEAT = dict(vectors=False, uint=False)
 
@@ -47,10 +50,59 @@ def family():
     return out
 
 
-def work(job):
-    seed, lo, hi, feat, options = job
+def family_redecl():
+    """Second deterministic family: a declaration without initialiser that executes more than once in one
+    invocation (for / while / do bodies, a block executed twice through a called function) and is read before
+    it is written: int, float, structure field, array element.  Every execution starts from zero."""
+    V, L, B = A.var, A.lit_i, A.bin_
+    S = A.struct("S0", [("a", A.INT), ("b", A.FLOAT)])
+    kinds = [("int", A.INT, lambda: V("t")), ("float", A.FLOAT, lambda: V("t")), ("struct", S, lambda: A.mem(V("t"), "a")),
+             ("structf", S, lambda: A.mem(V("t"), "b")), ("arr", A.arr(A.INT, [3]), lambda: A.idx(V("t"), L(1))),
+             ("arr2", A.arr(A.INT, [2, 2]), lambda: A.idx(A.idx(V("t"), L(1)), L(0)))]
     out = []
-    fam = family() if lo < 0 else None
+    for kn, ty, lv in kinds:
+        body = [A.decl("t", ty), A.estmt(A.casg("+", lv(), B("+", V("i"), L(1)))), A.estmt(A.casg("+", V("acc"), lv()))]
+        for loop in ("for", "while", "do", "nested", "callee"):
+            pre = [A.decl("acc", A.FLOAT, L(0)), A.decl("i", A.INT, L(0))]
+            step = A.estmt(A.asg(V("i"), B("+", V("i"), L(1))))
+            if loop == "for":
+                stmts = pre + [A.for_(None, B("<", V("i"), V("n")), A.asg(V("i"), B("+", V("i"), L(1))), A.block(list(body)))]
+            elif loop == "while":
+                stmts = pre + [A.while_(B("<", V("i"), V("n")), A.block(list(body) + [step]))]
+            elif loop == "do":
+                stmts = pre + [A.do_(A.block(list(body) + [step]), B("<", V("i"), V("n")))]
+            elif loop == "nested":
+                stmts = pre + [A.while_(B("<", V("i"), V("n")), A.block([A.if_(B(">", V("i"), L(0)), A.block(list(body)), A.block(list(body))), step]))]
+            else:
+                stmts = None
+            if stmts is not None:
+                funcs = [A.func("f", [("n", A.INT)], A.FLOAT, A.block(stmts + [A.ret(V("acc"))]), True)]
+            else:
+                # the declaration sits in a helper that is called repeatedly: each activation has its own variable
+                helper = A.func("h", [("i", A.INT)], A.FLOAT, A.block([A.decl("acc", A.FLOAT, L(0))] + list(body) + [A.ret(V("acc"))]))
+                funcs = [helper, A.func("f", [("n", A.INT)], A.FLOAT, A.block(
+                    [A.decl("acc", A.FLOAT, L(0)), A.decl("i", A.INT, L(0)),
+                     A.while_(B("<", V("i"), V("n")), A.block([A.estmt(A.casg("+", V("acc"), A.call("h", [V("i")]))), step])), A.ret(V("acc"))]), True)]
+            prog = A.prog([], funcs, [S] if kn.startswith("struct") else [])
+            out.append((prog, [({"n": A.enc(n, A.INT)}, {}) for n in (1, 2, 4)]))
+    return out
+
+
+_FAM = None
+
+
+def all_family():
+    global _FAM
+    if _FAM is None:
+        _FAM = family() + family_redecl()
+    return _FAM
+
+
+def work(job):
+    seed, lo, hi, feat, options = job[:5]
+    irm_limit = job[5] if len(job) > 5 else None
+    out = []
+    fam = all_family() if lo < 0 else None
     for i in range(lo, hi):
         prog, inputs = fam[i + len(fam)] if fam is not None else gen_case(seed, i, feat)
         src = A.pp(prog)
@@ -74,16 +126,24 @@ def work(job):
                 obs = A.run_vm(program, "f", {k: A.dec(v) for k, v in args.items()}, {k: A.dec(v) for k, v in gl.items()}, budget=300000)
                 obs["ret_repr"] = A.show_py(obs.get("ret"))
                 rec["runs"].append({"j": j, "args": args, "globals": gl, "obs": obs})
+            if irm_limit is not None and (0 <= i < irm_limit or -len(family_redecl()) <= i < 0):
+                # the same runs once more with the instruction tracer, for spec/IRMachine.tla
+                from nsl import LinearIR as L
+                params = [p_["n"] for p_ in [f for f in prog["funcs"] if f["name"] == "f"][0]["params"]]
+                rec["irm"] = {"mod": irmachine.machine_module(program, L), "runs": []}
+                for j, (args, gl) in enumerate(inputs[:2]):
+                    obs, ev, trunc = irmachine.trace_run(program, L, "f", {k: A.dec(v) for k, v in args.items()}, {k: A.dec(v) for k, v in gl.items()})
+                    rec["irm"]["runs"].append({"j": j, "args": [args[n] for n in params], "globals": gl, "obs": obs, "events": ev, "truncated": trunc})
         out.append(rec)
     return out
 
 
-def collect(ctx, n, feat, options, chunk=25, with_family=False):
-    jobs = [(ctx.seed, lo, min(n, lo + chunk), feat, options) for lo in range(0, n, chunk)]
+def collect(ctx, n, feat, options, chunk=25, with_family=False, irm_limit=None):
+    jobs = [(ctx.seed, lo, min(n, lo + chunk), feat, options, irm_limit) for lo in range(0, n, chunk)]
     if with_family:
-        nf = len(family())
+        nf = len(all_family())
         # family members get negative indices -nf .. -1 (one job: family() is rebuilt per job)
-        jobs += [(ctx.seed, -nf + lo, -nf + min(nf, lo + 64), feat, options) for lo in range(0, nf, 64)]
+        jobs += [(ctx.seed, -nf + lo, -nf + min(nf, lo + 64), feat, options, irm_limit) for lo in range(0, nf, 64)]
     with mp.Pool(16) as pool:
         res = pool.map(work, jobs)
     return [r for out in res for r in out]
@@ -100,9 +160,41 @@ def sem_batch(ctx, recs):
     return progs, cases
 
 
+def irm_validate(ctx, recs, options_text):
+    """Instruction-level trace validation (spec/IRMachine.tla) of the traced runs in recs.  Returns outcome counts."""
+    mods, cases, meta = [], [], {}
+    for r in recs:
+        if "irm" not in r:
+            continue
+        mods.append(r["irm"]["mod"])
+        for run in r["irm"]["runs"]:
+            cid = f"{r['i']}/{run['j']}"
+            cases.append({"id": cid, "m": len(mods), "entry": "f", "args": run["args"], "globals": run["globals"], "trace": run["events"]})
+            meta[cid] = (r, run)
+    counts = {"cases": len(cases), "events": sum(len(c["trace"]) for c in cases)}
+    for lo in range(0, len(cases), 400):
+        part = cases[lo:lo + 400]
+        used = sorted({c["m"] for c in part})
+        remap = {m: k + 1 for k, m in enumerate(used)}
+        verdicts, _ = irmachine.run_machine(ctx, [mods[m - 1] for m in used], [dict(c, m=remap[c["m"]]) for c in part], name=f"irm-{lo}.json")
+        for cid, v in verdicts.items():
+            r, run = meta[cid]
+            kind, detail = irmachine.judge(v, run["obs"], run["events"], run["truncated"])
+            counts[kind] = counts.get(kind, 0) + 1
+            if kind in ("agree", "unjudged", "defined-fail"):
+                continue
+            at = v["lastidx"] - 1 if kind == "step-result" else max(0, min(v["l"], len(run["events"])) - 1)
+            op = run["events"][at]["op"] if run["events"] else "?"
+            ctx.violation(f"irm-{kind}:{op}", f"instruction trace of the VM is not a behaviour of the IR machine ({options_text}): {detail}",
+                          {"source": r["src"], "args": [A.dec(a) for a in run["args"]], "globals_before": {k: A.dec(x) for k, x in run["globals"].items()},
+                           "verdict": {k: v.get(k) for k in ("status", "why", "l", "lastidx", "fn", "pc", "depth", "spec")},
+                           "events_around": run["events"][max(0, at - 6):at + 2], "generator_index": r["i"], "seed": ctx.seed})
+    return counts
+
+
 def run(ctx, args):
     n = 300 if ctx.tier == "quick" else 4000
-    recs = collect(ctx, n, FEAT, {"optimize": False}, with_family=True)
+    recs = collect(ctx, n, FEAT, {"optimize": False}, with_family=True, irm_limit=IRM_PROGRAMS[ctx.tier])
     if any(r.get("hook_ok") is False for r in recs):
         raise common.Machinery("compiler hook silent (NSL_VERIF hook missing from the tree under test?)")
     progs, cases = sem_batch(ctx, recs)
@@ -138,17 +230,23 @@ def run(ctx, args):
                         "vm": {k: run["obs"].get(k) for k in ("ok", "ret_repr", "exc", "msg", "where")}, "generator_index": r["i"], "seed": ctx.seed}
                 key = kind + (":" + run["obs"]["exc"] + ":" + run["obs"]["where"] if kind == "vm-error" else "")
                 ctx.violation(key, detail, case)
+    irm = irm_validate(ctx, recs, "optimize=False")
+    if irm.get("agree", 0) < irm["cases"] // 4 and not ctx.violations:
+        raise common.Machinery(f"IRMachine judged only {irm.get('agree', 0)} of {irm['cases']} traced runs")
     judged = counts.get("agree", 0)
     if judged < len(cases) // 4 and not ctx.violations:
         raise common.Machinery(f"only {judged} of {len(cases)} runs were judged: the generator drifted out of the property's domain")
     return common.finish(
         ctx, level="model_checking", evaluations=len(cases), distinct_nontrivial=len(nontrivial),
-        rule=f"a deterministic family of {len(family())} programs (13 operators x declared types x initialiser kinds of both operands) and {n} seeded programs of the scalar core (int/float scalars, local arrays and structs, all 13 operators, = += -= *= /=, ++/--, if/else, "
+        rule=f"a deterministic family of {len(all_family())} programs (13 operators x declared types x initialiser kinds of both operands; declarations without initialiser re-executed in for/while/do bodies, branches and callees for int, float, structure fields, array elements) and {n} seeded programs of the scalar core (int/float scalars, local arrays and structs, all 13 operators, = += -= *= /=, ++/--, if/else, "
              "for/while/do with break/continue, early return, globals, calls) x 3 inputs; each case is one behaviour of NslSem in TLC "
              "(invariants Finished, FrameExists, GlobalsStable; properties FrameIsolation, CallDiscipline) and one run of the real compiler + VM; "
-             "returned value and final globals compared exactly. distinct_nontrivial = programs with at least one judged run of more than 40 reference steps.",
+             "returned value and final globals compared exactly. Trace validation: the runs of the first "
+             f"{IRM_PROGRAMS[ctx.tier]} generated programs and of the re-declaration family are recorded instruction by instruction through the VM hook "
+             f"({irm['events']} events in {irm['cases']} runs) and checked against spec/IRMachine.tla: every event must be the machine's next step and every "
+             "register value the machine's value (property FrameIsolation on the recorded behaviour). distinct_nontrivial = programs with at least one judged run of more than 40 reference steps.",
         samples=samples or [{"note": "no long agreeing run in this batch"}], traces_validated=judged,
         assumptions=["not judged: runs the reference ends as ood (overflow beyond 2^30, float->int of a non-integral value, % with a negative operand, "
                      "non-dyadic float result, order-sensitive evaluation, impure right operand of && / ||), fuel, division by zero, index out of range",
                      "5 and 5.0 are the same value"],
-        extra={"outcome_counts": counts, "programs": n, "cases": len(cases)})
+        extra={"outcome_counts": counts, "programs": n, "cases": len(cases), "irmachine_trace_validation": irm})
